@@ -806,3 +806,4 @@ EXPLANATION += (' Round 6: ' + 'SPELL/alteration-magnitude (the alteration is no
 EXPLANATION += (' Round 7: ' + 'SEQ/squash-every-exit (must-pass-through); PITFALL/falsy-zero over chord_symbols_lib.')
 EXPLANATION += (' Rounds 9-10: ' + 'SEQ/leadsheet-defaults (sibling agreement with Melody); RANGE/filter-whatever-the-amount; SEQ/squash-every-exit answers cannot-classify for an exit under a further unclassified condition.')
 EXPLANATION += (' Round 11: ' + 'KEY/scenarios (key-signature loop body on 3 keys x 8 amounts).')
+EXPLANATION += (' Round 12: ' + 'PASS/wrap-both-ways shared from C15.')
